@@ -41,17 +41,27 @@ func (c *checker) determinismSelftest(ph phase, seeds uint64) {
 	type key struct{ seed, field string }
 	ref := map[string]string{}
 	runs, mismatches := 0, 0
-	procs := 0
+	procs, hung := 0, 0
 	var firstMismatch string
 	for _, gmp := range []int{1, 4, 16} {
 		for rep := 0; rep < 2; rep++ {
+			if hung >= 2 {
+				continue // no point in waiting for the remaining configurations
+			}
 			p := ph
 			p.Mode = "selftest"
 			p.GoMaxProcs = gmp
 			job := Job{Engine: p.Engine, Property: c.prop, Mix: p.Mix, Mode: "selftest", Tier: c.tier,
 				SeedLo: c.seed * 1_000_000_000, SeedHi: c.seed*1_000_000_000 + seeds, Extra: p.Extra}
-			o := c.rc.runJob(p, job, 10*time.Minute, 0)
+			o := c.rc.runJob(p, job, 2*time.Minute, 0)
 			procs++
+			if o.Killed {
+				// the engine process hangs (e.g. the code under test blocks on a channel made at
+				// package initialisation, outside any bubble, which synctest cannot see as a
+				// block): leave these seeds to the explore phase
+				hung++
+				continue
+			}
 			if o.Violation != nil {
 				// handled by the explore phase (same seeds are explored there too)
 				continue
@@ -85,6 +95,10 @@ func (c *checker) determinismSelftest(ph phase, seeds uint64) {
 		}
 	}
 	c.selftest = map[string]interface{}{"seeds": seeds, "processes": procs, "gomaxprocs": []int{1, 4, 16}, "runs": runs, "mismatches": mismatches}
+	if hung > 0 {
+		c.selftest["processes_killed_by_watchdog"] = hung
+		fmt.Printf("warning: determinism self-test: %d engine processes hung and were killed\n", hung)
+	}
 	if mismatches > 0 {
 		if u := uncontrolledSelects(c.rc.info); len(u) > 0 {
 			// the tree under test contains select statements with several cases; which ready
@@ -309,6 +323,10 @@ func snapsimPlan() plan {
 					return finish(1)
 				}
 			}
+			// what C07 hunts is nondeterminism; part of it (map iteration inside third-party
+			// packages, goroutine timing) is outside the simulator's reach and shows only with some
+			// probability per call, so a replay of a C07 finding is attempted up to 12 times
+			c.rc.flaky = true
 			// goroutines inside the snapping packages? (none in the pinned tree)
 			explorePh := phs["explore"]
 			concurrent := snapHasGoroutines(c.rc.info)
